@@ -281,15 +281,15 @@ func (s *LinearState) search(ctx *Context, pattern Map, lock bool) (*SearchResul
 	timer := NewTimer(ctx, "LinearState.search")
 	defer timer.Stop()
 
-	now := time.Now().UTC().Unix()
-	// ToDo: Mutex
-
 	srs := SearchResults{}
 	srs.Found = make([]SearchResult, 0, 0)
 	if lock {
 		s.slock(ctx, true)
 		defer s.sunlock(ctx, true)
 	}
+	// Read the clock once we have the lock: if we had to wait for
+	// it, facts that expired in the meantime must not be returned.
+	now := time.Now().UTC().Unix()
 	for id, rf := range s.Facts {
 		srs.Checked++
 		expired, err := s.expire(ctx, id, rf.M, now)
